@@ -71,7 +71,8 @@ def gen(rng, broker, tier):
             d = rng.randint(0, int(p * 1e6 * 0.98))
         else:
             d = rng.choice([1000, int(p * 1e6 * 0.3), int(p * 1e6 * 1.3), int(p * 1e6 * 2.6)])
-        outcome = rng.choice(["ok", "ok", "ok", "fail", "fail-once"])
+        # "force": the body answers with force_retry() on its first attempt (also past the budget), the retried attempt fails
+        outcome = rng.choice(["ok", "ok", "ok", "fail", "fail-once", "force"])
         prof.append({"dur_us": min(d, 20_000_000), "outcome": outcome})
     until = rng.choice([None, None, rng.randint(-2_000_000, 5_000_000), int(p * 1e6 * 1.5)])
     # slow I/O: the result of every run is stored by a results broker which stalls for a part of / longer than the period
@@ -129,10 +130,11 @@ async def _main(sim, sc, out):
     rec = world.rec
     V = out["violations"]
 
-    async def body(jid: str):
+    async def body(jid: str, msg):
         it = min(iter_no[0], len(prof) - 1)
         pr = prof[it]
         attempt_in_iter[0] += 1
+        max_attempts[it] = max(max_attempts.get(it, 0), attempt_in_iter[0])
         rec.note("actor_start", "rj", iteration=it, attempt=attempt_in_iter[0])
         sa_ = sc.get("stop_at")
         if sa_ and sa_.get("anchor") == "force" and it == sa_["iter"] and stop["us"] is None:
@@ -141,7 +143,9 @@ async def _main(sim, sc, out):
         try:
             if pr["dur_us"]:
                 await asyncio.sleep(pr["dur_us"] / 1e6)
-            if pr["outcome"] == "fail" or (pr["outcome"] == "fail-once" and attempt_in_iter[0] == 1):
+            if pr["outcome"] == "force" and attempt_in_iter[0] == 1:
+                await msg.force_retry(timedelta(microseconds=sc["retry_table_us"][0]))
+            if pr["outcome"] in ("fail", "force") or (pr["outcome"] == "fail-once" and attempt_in_iter[0] == 1):
                 raise ValueError(f"iteration {it} fails")
             return it
         finally:
@@ -164,6 +168,7 @@ async def _main(sim, sc, out):
                     sim.at_step(sim.loop.step + sa["offset"], force)
 
     stop = {"us": None, "armed": False}
+    max_attempts: dict = {}
 
     def arm_stop(offset):
         if stop["us"] is not None or stop["armed"]:
@@ -178,7 +183,7 @@ async def _main(sim, sc, out):
 
         sim.at_step(sim.loop.step + 1 + offset, send)
 
-    body.__annotations__ = {"jid": str}
+    body.__annotations__ = {"jid": str, "msg": r.MessageDependency}
     router = r.Router()
     router.actor(body, name="rec", queue="q0", retry_policy=workload.policy_from_spec({"kind": "table", "us": sc["retry_table_us"]}))
     sa0 = sc.get("stop_at")
@@ -246,6 +251,13 @@ async def _main(sim, sc, out):
                                  for x in prof) + 10_000_000 + 4 * max(p_us, slow or 0)
     while sim.clock.us < horizon and iter_no[0] < n_iter and not wt.done():
         await asyncio.sleep(min(0.5, sc["period_s"] / 4))
+    for it_, n_att in sorted(max_attempts.items()):
+        allowed = sc["retries"] + 1 + (1 if prof[min(it_, len(prof) - 1)]["outcome"] == "force" else 0)
+        if n_att > allowed:
+            # a failed run of a recurring job is retried within its budget (one more for a forced retry), then rescheduled
+            V.append(violation("attempts", f"C06/{b}/more-attempts-in-one-iteration-than-the-retry-budget-allows",
+                               iteration=it_, attempts=n_att, allowed=allowed, outcome=prof[min(it_, len(prof) - 1)]["outcome"]))
+            break
     last_progress = max((e.end_us or e.us for e in rec.events if e.id == "rj" and e.node == "w"), default=0)
     quiet = sim.clock.us - last_progress
     ttl_us = (sc["ttl_s"] or 10**9) * 1_000_000
